@@ -1174,6 +1174,11 @@ def run(ctx):
         runs.append((case, effective_schedule(obs), obs))
 
     shrunk = {}
+    try:
+        with open(os.path.join(ctx.verif, 'known_findings', 'C11.json')) as f:
+            known_sigs = {x['signature'] for x in json.load(f).get('findings', [])}
+    except OSError:
+        known_sigs = set()
 
     def flush():
         reqs, meta = [], []
@@ -1213,6 +1218,10 @@ def run(ctx):
             for sig, what in found:
                 if sig in shrunk:
                     continue
+                if sig in known_sigs:       # recorded (its minimised replay is in the corpus): reported by name, not shrunk again
+                    shrunk[sig] = True
+                    res.violations.append({'sig': sig, 'what': what, 'case': {'case': case, 'schedule': schedule}})
+                    continue
                 c2, s2 = shrink(case, schedule, sig, ctx.driver)
                 shrunk[sig] = True
                 res.violations.append({'sig': sig, 'what': what, 'case': {'case': c2, 'schedule': s2},
@@ -1227,7 +1236,7 @@ def run(ctx):
             c = json.load(open(os.path.join(cdir, fn)))
             do(c['case'], vsched.ReplayThenDefault(c['schedule']))
     # ---------- the catalogue, systematically ----------
-    per_case = ctx.budget(180, 1500)
+    per_case = ctx.budget(160, 1500)
     for case in catalogue():
         res.count('catalogue-scenarios')
         case = {k: v for k, v in case.items() if k != 'name'}
@@ -1236,7 +1245,7 @@ def run(ctx):
             if len(runs) >= 3000:
                 flush()
         for name in hold_targets(case):
-            for k in range(ctx.budget(14, 40)):
+            for k in range(ctx.budget(10, 40)):
                 res.count('hold-schedules')
                 do(case, HoldPolicy(name, k))
     # ---------- generated cases: a few systematic schedules, then random ones ----------
